@@ -276,7 +276,7 @@ let run_check line =
   | None -> verdict false ("outcome:" ^ i)
 
 (* ---- end to end: rows of the table printed by the real runner, one per thread count ----
-   impl line: "R <T> IN <s> <durations> ROW fastest|slowest|median|mean|samples|iters ;; R ..".
+   impl line: "R <T> IN <s> <durations> <alloc infos> ROW fastest|slowest|median|mean|samples|iters BLOCKS <labels> ;; R ..".
    A duration cell such as "42.83_ns" is the value truncated to 4 significant digits in its unit with trailing
    zeros removed (C18): it stands for the interval [p, p + 10^-(4 - integer digits)) units. *)
 let rec pow10 k = if k <= 0 then n_of_small 1 else N.mul ten (pow10 (k - 1))
@@ -311,10 +311,17 @@ let cell_ok (cell : string) (v : n) : bool =
        end)
   | _ -> false
 
-let parse_e2e_run (part : string) : (string * n * n list * string list) option =
+(* one run: thread count, the inputs (sample size, durations, allocation infos), the row, the printed blocks *)
+let parse_e2e_run (part : string) : (string * inputs * string list * string) option =
   match toks part with
-  | ["R"; t; "IN"; s; d; "ROW"; row] -> Some (t, n_of_string s, nlist d, String.split_on_char '|' row)
+  | ["R"; t; "IN"; s; d; a; "ROW"; row; "BLOCKS"; blocks] ->
+    Some (t, parse_case (String.concat " " [s; d; a; "|||"; "0000"]), String.split_on_char '|' row, blocks)
   | _ -> None
+
+let blocks_s (bs : bool list) =
+  let names = ["max_alloc"; "grow"; "shrink"; "alloc"; "dealloc"] in
+  let l = List.filter_map (fun (b, n) -> if b then Some n else None) (List.combine bs names) in
+  if l = [] then "-" else String.concat "," l
 
 let split_runs (i : string) : string list =
   let rec go acc s =
@@ -331,29 +338,30 @@ let row_ok row (f, sl, md, me, sc, ic) =
     && csamples = string_of_n sc && citers = string_of_n ic
   | _ -> false
 
-let model_figs dbg s durs =
-  let inp = { in_size = s; in_durs = durs; in_allocs = []; in_counters = [] } in
-  let sv = List.stable_sort (fun (_, a) (_, b) -> cmp_n a b) (indexed durs) in
+let model_figs dbg (inp : inputs) =
+  let sv = List.stable_sort (fun (_, a) (_, b) -> cmp_n a b) (indexed inp.in_durs) in
   match compute_stats true dbg sv inp with
-  | Ok st -> Some (st.st_time.fastest, st.st_time.slowest, st.st_time.median, st.st_time.mean,
-                   st.st_sample_count, st.st_iter_count)
+  | Ok st -> Some ((st.st_time.fastest, st.st_time.slowest, st.st_time.median, st.st_time.mean,
+                    st.st_sample_count, st.st_iter_count), blocks_s (printed_blocks st))
   | Panic _ -> None
 
-let spec_figs s durs =
+let spec_figs (inp : inputs) =
+  let s = inp.in_size and durs = inp.in_durs in
   (spec_fastest durs s, spec_slowest durs s, spec_median durs s, spec_mean durs s,
    n_of_small (List.length durs), N.mul s (n_of_small (List.length durs)))
 
 let figs_s (f, sl, md, me, sc, ic) =
   "t=" ^ String.concat "," (List.map string_of_n [f; sl; md; me]) ^ " sc=" ^ string_of_n sc ^ " ic=" ^ string_of_n ic
 
-(* model line = the implementation's run when its row stands for the model's figures, else the model's figures *)
+(* model line = the implementation's run when its row stands for the model's figures and it shows the blocks the
+   model's statistics call for, else the model's figures and blocks *)
 let e2e_mode dbg line =
   let (_, i) = split_sb line in
   String.concat " ;; " (List.map (fun part ->
       match parse_e2e_run part with
-      | Some (_, s, durs, row) ->
-        (match model_figs dbg s durs with
-         | Some figs -> if row_ok row figs then part else "model " ^ figs_s figs
+      | Some (_, inp, row, blocks) ->
+        (match model_figs dbg inp with
+         | Some (figs, mb) -> if row_ok row figs && blocks = mb then part else "model " ^ figs_s figs ^ " blocks=" ^ mb
          | None -> "model panic")
       | None -> "unparsed") (split_runs i))
 
@@ -361,9 +369,13 @@ let e2e_check line =
   let (_, i) = split_sb line in
   let bad = List.filter_map (fun part ->
       match parse_e2e_run part with
-      | Some (t, s, durs, row) -> if row_ok row (spec_figs s durs) then None else Some ("t=" ^ t)
+      | Some (t, inp, row, blocks) ->
+        if not (row_ok row (spec_figs inp)) then Some ("t=" ^ t ^ ":row-not-the-statistics-of-that-run's-samples")
+        else if blocks <> blocks_s (blocks_spec inp) then
+          Some ("t=" ^ t ^ ":allocation-blocks-shown-not-exactly-those-with-a-nonzero-figure")
+        else None
       | None -> Some "unparsed") (split_runs i) in
-  verdict (bad = []) ("row-not-the-statistics-of-that-run's-samples:" ^ String.concat "," bad)
+  verdict (bad = []) (String.concat "," bad)
 
 (* ---- per-input counter value ---- *)
 let periter line =
